@@ -17,6 +17,7 @@ import (
 	"regexp"
 	"sort"
 	"strings"
+	"sync"
 
 	"verif/mc/internal/common"
 	"verif/mc/internal/drv"
@@ -216,8 +217,17 @@ func c18Spaces() [c18NOpt]c18Space {
 
 // c18FuzzEnv: hostile environment strings for the "no value makes the tool fail" clause. None
 // of them is a substring of a probe file name or equals a check code.
-func c18FuzzEnv() []string {
-	return []string{"\xff\xfe", strings.Repeat("z", 20000), strings.Repeat(",", 5000), "%s%n%d%!", "--help", "-config.scan-tests", "=", "\"", "\\", "ÿ", "\x01\x7f", "$HOME", "*", "[", "(?i)", "\n", "true\n", "1\r\n"}
+func c18FuzzEnv(i int) []string {
+	l := []string{"\xff\xfe", strings.Repeat("z", 20000), strings.Repeat(",", 5000), "%s%n%d%!", "--help", "-config.scan-tests", "=", "\"", "\\", "ÿ", "\x01\x7f", "$HOME", "*", "[", "(?i)", "\n"}
+	switch i {
+	case c18Scan:
+		l = append(l, "true\n", "1\r\n")
+	case c18Paths: // no digits: the scratch directory name contains digits
+		l = append(l, "gen\n", "zzz\r\n,")
+	case c18Checks:
+		l = append(l, "imm01\n", "ctor\r\n,")
+	}
+	return l
 }
 
 type c18Grid struct {
@@ -333,21 +343,20 @@ func c18BuildGrid(thorough bool) *c18Grid {
 		g.add(opt, "triple", ds...)
 	}
 	// 5. hostile environment strings, one variable at a time and all three at once
-	for vi, s := range c18FuzzEnv() {
+	for vi := range c18FuzzEnv(0) {
+		var all [c18NOpt]c18Opt
 		for i := 0; i < c18NOpt; i++ {
+			s := c18FuzzEnv(i)[vi]
 			var opt [c18NOpt]c18Opt
 			opt[i].Env = c18Src{Set: true, Val: s}
+			all[i].Env = opt[i].Env
 			ds := bulk
 			if vi < 3 {
 				ds = []drv.Driver{drv.Vet, drv.Standalone}
 			}
 			g.add(opt, "fuzz-env/"+c18OptName[i], ds...)
 		}
-		var opt [c18NOpt]c18Opt
-		for i := 0; i < c18NOpt; i++ {
-			opt[i].Env = c18Src{Set: true, Val: s}
-		}
-		g.add(opt, "fuzz-env/all", bulk...)
+		g.add(all, "fuzz-env/all", bulk...)
 	}
 	// 6. boolean flag values that package flag rejects: run, not judged (only "no panic")
 	for _, s := range []string{"", "yes", "garbage"} {
@@ -480,7 +489,7 @@ func C18(tier common.Tier) int {
 	for _, k := range grid.order {
 		nRuns += len(grid.cells[k].Drivers)
 	}
-	run.SetRule("Part 1, finite grid on the real executables, enumerated completely: a probe module (regular file with IMM01, CTOR01, TONL02, PKGO02 on distinct lines; in-package _test.go file; package in gen/q; package in testdata/p named on the command line) is analysed by `gogreement -json` / `go vet -vettool=gogreement -json` (and both text modes on the 3x3 class grid) under every cell of: per option {flag absent, flag empty (bare for the boolean), flag value} x {variable unset, empty, value} over all listed boolean spellings and list shapes (blanks, empty items, mixed case, single comma, near-miss codes); all pairs of options x 9 class states each; all three options sourced from flag/env/both; 18 hostile environment strings per variable. Each run's diagnostic set (file, line, code) must equal the set computed from the reference resolver (flag if given, else variable if set, else default; split/trim/drop-empty/upper-case; boolean table), exit status must be 0 (json) / 0|3 (text) / 0|1 (go vet text), no panic/internal error text. Part 2, exhaustive bounded strings in-process: every string up to the length bound over {a,A,1,comma,space,tab,t,U+00FF} (and {y,e,s,o,n,N,space,0} for the boolean) as the value of each GOGREEMENT_* variable and as the value of each flag, through config.FromEnv and CreateFlagSet+Parse+ParseFlagsFromFlagSet in six call shapes, compared field by field with the reference; a panic is a counterexample. A case is non-trivial when the effective configuration differs from the default.",
+	run.SetRule("Part 1, finite grid on the real executables, enumerated completely: a probe module (regular file with IMM01, CTOR01, TONL02, PKGO02 on distinct lines; in-package _test.go file; package in gen/q; package in testdata/p named on the command line) is analysed by `gogreement -json` / `go vet -vettool=gogreement -json` (and both text modes on the 3x3 class grid) under every cell of: per option {flag absent, flag empty (bare for the boolean), flag value} x {variable unset, empty, value} over all listed boolean spellings and list shapes (blanks, empty items, mixed case, single comma, near-miss codes); all pairs of options x 9 class states each; all three options sourced from flag/env/both; 18 hostile environment strings per variable (invalid UTF-8, 20 kB, control characters, format verbs, flag look-alikes, trailing newlines). Each run's diagnostic set (file, line, code) must equal the set computed from the reference resolver (flag if given, else variable if set, else default; split/trim/drop-empty/upper-case; boolean table), exit status must be 0 (json) / 0|3 (text) / 0|1 (go vet text), no panic/internal error text. Part 2, exhaustive bounded strings in-process: every string up to the length bound over {a,A,1,comma,space,tab,t,U+00FF} (and {y,e,s,o,n,N,space,0} for the boolean) as the value of each GOGREEMENT_* variable and as the value of each flag, through config.FromEnv and CreateFlagSet+Parse+ParseFlagsFromFlagSet in six call shapes, compared field by field with the reference; a panic is a counterexample. A case is non-trivial when the effective configuration differs from the default.",
 		fmt.Sprintf("%d grid cells, %d executions of the real binary; parser sweep: all strings of length <= %d", len(grid.order), nRuns, sweepLen))
 	run.Assume("package flag, go vet's flag forwarding, go/packages and the x/tools drivers are trusted",
 		"GOGREEMENT_ENV_ONLY is unset everywhere",
@@ -547,6 +556,7 @@ func C18(tier common.Tier) int {
 		return slow(jobs[i].d) < slow(jobs[j].d)
 	})
 
+	var sampled sync.Map
 	drv.ParallelDo(len(jobs), common.NumWorkers(), func(ji int) {
 		c, d := jobs[ji].c, jobs[ji].d
 		eff, judged, why := c18Resolve(c.Opt)
@@ -612,7 +622,7 @@ func C18(tier common.Tier) int {
 				Summary: fmt.Sprintf("%s reports the wrong set: by the statement the effective configuration is {%s}; missing %v, unexpected %v", cmdline, eff, missing, extra),
 				Detail:  detail(map[string]any{"want": want, "got": o.got, "missing": missing, "extra": extra})})
 		}
-		if ji%61 == 0 {
+		if _, dup := sampled.LoadOrStore(strings.SplitN(c.Group, "/", 2)[0]+"/"+dn, true); !dup && !eff.isDefault() {
 			run.Sample(map[string]any{"cmd": cmdline, "effective": eff.String(), "reported": o.got})
 		}
 	})
